@@ -350,6 +350,77 @@ def tag_sessions(rng, wd):
     return out
 
 
+def replay_design(chk, wd, n):
+    """job R: call sequences chosen by TLC's simulator from SessionDesign (SessionSim.tla) are made through the real
+    controller; the trace ends with the state the design reached."""
+    import json
+    from .. import tlc as tlcmod
+    from ..core import MachineryError
+    r = tlcmod.run_tlc("SessionSim", "SessionSim.cfg", workers=1, timeout=900, simulate="num=%d" % n, depth=15,
+                       seed=chk.seed + 11)
+    chk.jobs.append(dict(job="S", module="SessionSim", cfg="SessionSim.cfg", **r.summary()))
+    if not r.ok or not r.infos:
+        raise MachineryError("simulation of SessionSim failed: %s" % (r.error or "no behaviour printed"))
+    traces = []
+    for line in sorted(set(r.infos)):
+        b = json.loads(line.replace('\\"', '"'))
+        ncores = {(c[0], c[1]): c[2] for c in b["chips"]}
+        w, h = 1 + max(c[0] for c in b["chips"]), 1 + max(c[1] for c in b["chips"])
+        sim = SimMachine(w, h, STRUCT_TEXT, ncores=ncores)
+        for c in sim.chips.values():
+            c.sdram_next, c.sdram_limit = SDRAM_BASE, SDRAM_BASE + b["heap"]
+        net = SimNet(sim)
+        net.install(scp_connection, machine_controller)
+        evs = []
+        try:
+            mc = MachineController("sim")
+            for act in b["hist"]:
+                kind = act[0]
+                if kind == "progress":
+                    c = sim.chips[(act[1], act[2])]
+                    c.core_state[act[3]] = act[4]
+                    sim._sync_core(c, act[3])
+                    evs.append(["env", act[1], act[2], act[3], act[4], project(sim)])
+                    continue
+                if kind == "load":
+                    tg = {}
+                    for (x, y, p) in act[2]:
+                        tg.setdefault((x, y), []).append(p)
+                    name, a = "load_app", dict(app=act[1], wait=act[3], binary=[7] * 24,
+                                               targets=[[x, y, sorted(ps)] for (x, y), ps in sorted(tg.items())])
+                elif kind == "signal":
+                    name, a = "send_signal", dict(sig=act[1], app=act[2], as_enum=0)
+                elif kind == "alloc":
+                    name, a = "sdram_alloc", dict(x=act[1], y=act[2], size=act[3], tag=act[4], app=act[5], clear=0, filelike=0)
+                elif kind == "free":
+                    name, a = "sdram_free", dict(x=act[1], y=act[2], off=act[3])
+                elif kind == "entries":
+                    name, a = "load_entries", dict(x=act[1], y=act[2], app=act[4],
+                                                   entries=[[0, i, 0, 15, 0, 1] for i in range(1, act[3] + 1)])
+                elif kind == "clear":
+                    name, a = "clear_entries", dict(x=act[1], y=act[2], app=act[3])
+                elif kind == "iptag":
+                    name = "iptag_set" if act[4] else "iptag_clear"
+                    a = dict(x=act[1], y=act[2], tag=act[3])
+                    if act[4]:
+                        a.update(ip=[2, 0, 1, 0], port=17893)
+                else:
+                    raise MachineryError("unknown design action %r" % (act,))
+                logpos = len(sim.log)
+                try:
+                    outcome = perform(mc, wd, name, a, [])
+                except Exception as ex:
+                    outcome = ["raise", type(ex).__name__]
+                args = {k: v for k, v in a.items() if k != "binary"}
+                evs.append(["api", name, args, outcome, cmd_records(sim.log[logpos:]), project(sim)])
+        finally:
+            net.uninstall()
+        evs.append(["design", b["final"]])
+        traces.append(dict(chips=b["chips"], heap=b["heap"], strict_tag=0, ev=evs, label="tlc-simulated calls"))
+        chk.replayed += 1
+    return traces
+
+
 def run_beyond(chk):
     """called by the hosting check: design jobs + trace validation, all reported under beyond_the_property"""
     rng = random.Random(chk.seed + 4242)
@@ -364,9 +435,12 @@ def run_beyond(chk):
     traces = [one_session(rng, wd, rng.randint(10, 28)) for _ in range(chk.pick(150, 1500))]
     rej = chk.validate_beyond("SessionTrace", "SessionTrace.cfg", traces,
                               "whole controller sessions against the machine model (Session.tla)", batch=400)
+    rejr = chk.validate_beyond("SessionTrace", "SessionTrace.cfg", replay_design(chk, wd, chk.pick(80, 800)),
+                               "calls chosen by TLC's simulator from SessionDesign, made through rig; the machine ends "
+                               "in the design's state")
     rej2 = chk.validate_beyond("SessionTrace", "SessionTrace.cfg", tag_sessions(rng, wd),
                                "SpiNNakerMemoryError.tag_in_use says whether the tag was the reason")
-    return rej, rej2
+    return rej, rejr, rej2
 
 
 def selftest(chk):
